@@ -16,7 +16,11 @@
 //  <op kind>:<invariant class>.
 #include "vf/gst.hpp"
 #include "vf/bfs.hpp"
+#include "vf/fork.hpp"
 #include <regex>
+#include <algorithm>
+#include "Enum/EOperator.hpp"
+#include "Matrix/MatrixRectangular.hpp"
 
 using namespace vf;
 
@@ -102,6 +106,15 @@ struct RefTable
     unrole(uid);
     cols.erase(cols.begin() + i);
   }
+  std::vector<int> liveUids() const { std::vector<int> v; for (auto& c : cols) v.push_back(c.uid); std::sort(v.begin(), v.end()); return v; }
+  int selIdx() const { auto it = roles.find(L_SEL); if (it == roles.end() || it->second.empty()) return -1; return idxOfUid(it->second[0]); }
+  // selection whose cells are all 0, 1 or undefined: every definition of "active" used by the library coincides
+  bool boolSel() const { int i = selIdx(); if (i < 0) return true; for (double s : cols[i].v) if (s != 0. && s != 1. && !FFFF(s)) return false; return true; }
+  bool active(int e) const { int i = selIdx(); if (i < 0) return true; double s = cols[i].v[e]; return s != 0. && !FFFF(s); }
+  int roleCol(int T, int k) const { auto it = roles.find(T); if (it == roles.end() || k < 0 || k >= (int)it->second.size()) return -1; return idxOfUid(it->second[k]); }
+  int nrole(int T) const { auto it = roles.find(T); return it == roles.end() ? 0 : (int)it->second.size(); }
+  void setc(int i, int e, double v) { if (i >= 0 && i < ncol() && e >= 0 && e < nech) { cols[i].v[e] = v; cols[i].unspec[e] = 0; } }
+  void adopt(int i, int e) { if (i >= 0 && i < ncol() && e >= 0 && e < nech) cols[i].unspec[e] = 1; }
   int nactive() const
   {
     auto it = roles.find(L_SEL);
@@ -120,6 +133,7 @@ struct Step
   Db*& db;
   RefTable& m;
   std::string bad;  // return-value mismatch detected inside the op ("" = fine)
+  bool disabled = false;  // op not applicable in this state (not counted as a transition)
   std::string tag;  // circumstance qualifying the finding key (deleted UID designated, automatic rank for a column already in the list)
 };
 struct Op
@@ -368,6 +382,244 @@ static void build_ops()
   });
 }
 
+
+// ------------------------------------------------------------------------------------------------------------
+// second half of the alphabet: the remaining public cell / column / sample mutators of Db.hpp
+static void build_ops2()
+{
+  auto add = [](const std::string& n, const std::string& k, bool s, std::function<void(Step&)> f) { OPS.push_back({n, k, s, f}); };
+  auto fixNech = [](RefTable& m, int n) { if (m.nech <= 0) { m.nech = n; for (auto& c : m.cols) { c.v.assign(n, 0.); c.unspec.assign(n, 1); } } };
+
+  // ---- one sample across all columns / several samples of one column
+  for (int w : {0, -1})
+    add(std::string("setArrayBySample(") + (w ? "last" : "0") + ",{100,101,..})", "setArrayBySample", false, [w](Step& s) {
+      int e = w ? s.m.nech - 1 : 0;
+      VectorDouble v = seqTab(s.m.ncol(), 100.);
+      s.db->setArrayBySample(e, v);
+      std::vector<int> u = s.m.liveUids();  // documented order: the columns by increasing UID
+      for (size_t k = 0; k < u.size(); k++) s.m.setc(s.m.idxOfUid(u[k]), e, v[k]);
+    });
+  add("setArrayBySample(0, wrong size)", "setArrayBySample", false, [](Step& s) { s.db->setArrayBySample(0, seqTab(s.m.ncol() + 1, 100.)); });
+  add("setArrayVec({0,last},uid 2,{110,111})", "setArrayVec", false, [](Step& s) {
+    if (s.m.nech < 1) { s.disabled = true; return; }
+    VectorInt ie = {0, s.m.nech - 1};
+    s.db->setArrayVec(ie, 2, {110., 111.});
+    int i = s.m.idxOfUid(2);
+    s.m.setc(i, 0, 110.); s.m.setc(i, s.m.nech - 1, 111.);
+  });
+  add("updArray(0,uid 1,ADD,0.5)", "updArray", false, [](Step& s) {
+    s.db->updArray(0, 1, EOperator::ADD, 0.5);
+    int i = s.m.idxOfUid(1);
+    if (i >= 0 && s.m.nech > 0) { double o = s.m.cols[i].v[0]; if (s.m.cols[i].unspec[0]) return; s.m.setc(i, 0, FFFF(o) ? TEST : 0.5 + o); }
+  });
+  add("updArrayVec({last},uid 2,ADD,{0.25})", "updArrayVec", false, [](Step& s) {
+    if (s.m.nech < 1) { s.disabled = true; return; }
+    VectorDouble v = {0.25};
+    s.db->updArrayVec({s.m.nech - 1}, 2, EOperator::ADD, v);
+    int i = s.m.idxOfUid(2), e = s.m.nech - 1;
+    if (i >= 0) { double o = s.m.cols[i].v[e]; if (s.m.cols[i].unspec[e]) return; s.m.setc(i, e, FFFF(o) ? TEST : 0.25 + o); }
+  });
+  add("updZVariable(0,0,ADD,0.5)", "updZVariable", false, [](Step& s) {
+    int i = s.m.roleCol(L_Z, 0);
+    if (i < 0 || s.m.nech < 1) { s.disabled = true; return; }  // out-of-range item: memory-unsafe today, exercised in part outofrange
+    s.db->updZVariable(0, 0, EOperator::ADD, 0.5);
+    double o = s.m.cols[i].v[0]; if (s.m.cols[i].unspec[0]) return; s.m.setc(i, 0, FFFF(o) ? TEST : 0.5 + o);
+  });
+  add("updLocVariable(X,last,1,ADD,0.5)", "updLocVariable", false, [](Step& s) {
+    int i = s.m.roleCol(L_X, 1), e = s.m.nech - 1;
+    if (i < 0 || s.m.nech < 1) { s.disabled = true; return; }
+    s.db->updLocVariable(ELoc::X, e, 1, EOperator::ADD, 0.5);
+    double o = s.m.cols[i].v[e]; if (s.m.cols[i].unspec[e]) return; s.m.setc(i, e, FFFF(o) ? TEST : 0.5 + o);
+  });
+  add("setZVariable(last,0,9.25)", "setZVariable", false, [](Step& s) { s.db->setZVariable(s.m.nech - 1, 0, 9.25); s.m.setc(s.m.roleCol(L_Z, 0), s.m.nech - 1, 9.25); });
+  add("setLocVariables(Z,0,{120,..})", "setLocVariables", false, [](Step& s) {
+    int n = s.m.nrole(L_Z);
+    VectorDouble v = seqTab(n, 120.);
+    s.db->setLocVariables(ELoc::Z, 0, v);
+    for (int k = 0; k < n; k++) s.m.setc(s.m.roleCol(L_Z, k), 0, v[k]);
+  });
+  add("setLocVariables(X,0,wrong size)", "setLocVariables", false, [](Step& s) { s.db->setLocVariables(ELoc::X, 0, seqTab(s.m.nrole(L_X) + 1, 120.)); });
+
+  // ---- whole columns, with and without the selection
+  auto nsel = [](const RefTable& m) { int n = 0; for (int e = 0; e < m.nech; e++) if (m.active(e)) n++; return n; };
+  add("setColumnsByColIdx(tabs,{2,0})", "setColumnsByColIdx", false, [](Step& s) {
+    VectorDouble t = seqTab(2 * s.m.nech, 130.);
+    s.db->setColumnsByColIdx(t, {2, 0});
+    // an invalid index in the list: the columns before it may or may not have been written (not documented) -> adopted
+    bool allValid = s.m.ncol() > 2;
+    int k = 0;
+    for (int i : {2, 0}) { for (int e = 0; e < s.m.nech; e++) { if (allValid) s.m.setc(i, e, t[k * s.m.nech + e]); else s.m.adopt(i, e); } k++; }
+  });
+  add("setColumnByUID(tab,2,useSel)", "setColumnByUID[useSel]", false, [nsel](Step& s) {
+    if (!s.m.boolSel()) { s.disabled = true; return; }
+    VectorDouble t = seqTab(std::max(1, nsel(s.m)), 140.);
+    s.db->setColumnByUID(t, 2, true);
+    int i = s.m.idxOfUid(2), k = 0;
+    for (int e = 0; e < s.m.nech; e++) if (s.m.active(e)) s.m.setc(i, e, t[k++]);  // documented: only the active samples are updated
+  });
+  add("setColumnByColIdx(tab,last,useSel)", "setColumnByColIdx[useSel]", false, [nsel](Step& s) {
+    if (!s.m.boolSel()) { s.disabled = true; return; }
+    VectorDouble t = seqTab(std::max(1, nsel(s.m)), 150.);
+    int i = lastIdx(s.m), k = 0;
+    s.db->setColumnByColIdx(t, i, true);
+    for (int e = 0; e < s.m.nech; e++) { if (s.m.active(e)) s.m.setc(i, e, t[k++]); else s.m.adopt(i, e); }  // masked cells: not documented -> adopted
+  });
+  add("setColumn(tab,name of col 1,useSel)", "setColumn[useSel]", false, [nsel](Step& s) {
+    if (!s.m.boolSel() || s.m.ncol() < 2) { s.disabled = true; return; }
+    VectorDouble t = seqTab(std::max(1, nsel(s.m)), 160.);
+    s.db->setColumn(t, nameAt(s.m, 1), ELoc::UNKNOWN, 0, true);
+    int k = 0;
+    for (int e = 0; e < s.m.nech; e++) if (s.m.active(e)) s.m.setc(1, e, t[k++]);
+  });
+  add("setAllColumns(tabs)", "setAllColumns", false, [](Step& s) {
+    VectorVectorDouble tabs;
+    std::vector<int> u = s.m.liveUids();
+    for (size_t k = 0; k < u.size(); k++) tabs.push_back(seqTab(std::max(1, s.m.nech), 170. + 10. * k));
+    s.db->setAllColumns(tabs);
+    for (size_t k = 0; k < u.size(); k++) for (int e = 0; e < s.m.nech; e++) s.m.setc(s.m.idxOfUid(u[k]), e, tabs[k][e]);
+  });
+  add("copyByUID(0,2)", "copyByUID", false, [](Step& s) {
+    s.db->copyByUID(0, 2);
+    int i = s.m.idxOfUid(0), o = s.m.idxOfUid(2);
+    if (i >= 0 && o >= 0) for (int e = 0; e < s.m.nech; e++) { s.m.cols[o].v[e] = s.m.cols[i].v[e]; s.m.cols[o].unspec[e] = s.m.cols[i].unspec[e]; }
+  });
+  add("copyByCol(1,last)", "copyByCol", false, [](Step& s) {
+    int o = lastIdx(s.m);
+    s.db->copyByCol(1, o);
+    if (s.m.ncol() >= 2) for (int e = 0; e < s.m.nech; e++) { s.m.cols[o].v[e] = s.m.cols[1].v[e]; s.m.cols[o].unspec[e] = s.m.cols[1].unspec[e]; }
+  });
+
+  // ---- coordinates
+  add("setCoordinate(0,1,6.25)", "setCoordinate", false, [](Step& s) { s.db->setCoordinate(0, 1, 6.25); s.m.setc(s.m.roleCol(L_X, 1), 0, 6.25); });
+  add("setCoordinate(last,5,6.25)", "setCoordinate", false, [](Step& s) { s.db->setCoordinate(s.m.nech - 1, 5, 6.25); s.m.setc(s.m.roleCol(L_X, 5), s.m.nech - 1, 6.25); });
+  add("setCoordinates(0,tab)", "setCoordinates", false, [](Step& s) {
+    VectorDouble t = seqTab(std::max(1, s.m.nech), 200.);
+    s.db->setCoordinates(0, t);
+    int i = s.m.roleCol(L_X, 0);
+    for (int e = 0; e < s.m.nech; e++) s.m.setc(i, e, t[e]);
+  });
+  add("setSampleCoordinates(last,{210,211,..})", "setSampleCoordinates", false, [](Step& s) {
+    int nd = s.m.grid ? 2 : s.m.nrole(L_X);
+    VectorDouble c = seqTab(nd, 210.);
+    s.db->setSampleCoordinates(s.m.nech - 1, c);
+    for (int d = 0; d < nd; d++) s.m.setc(s.m.roleCol(L_X, d), s.m.nech - 1, c[d]);
+  });
+
+  // ---- blocks of cells by names / indices
+  for (int bs : {0, 1})
+    add(std::string("setValuesByNames({0,last},{name2,name0},vals,bySample=") + (bs ? "true)" : "false)"), "setValuesByNames", false, [bs](Step& s) {
+      if (s.m.ncol() < 3 || s.m.nech < 1) { s.disabled = true; return; }
+      VectorInt ie = {0, s.m.nech - 1};
+      VectorDouble v = {220., 221., 222., 223.};
+      s.db->setValuesByNames(ie, {nameAt(s.m, 2), nameAt(s.m, 0)}, v, bs);
+      int ic[2] = {2, 0};
+      for (int a = 0; a < 2; a++) for (int b = 0; b < 2; b++) s.m.setc(ic[a], ie[b], bs ? v[b * 2 + a] : v[a * 2 + b]);
+    });
+  add("setValuesByColIdx({last,0},{1,2},vals,bySample=true)", "setValuesByColIdx", false, [](Step& s) {
+    if (s.m.nech < 1) { s.disabled = true; return; }
+    VectorInt ie = {s.m.nech - 1, 0};
+    VectorDouble v = {230., 231., 232., 233.};
+    s.db->setValuesByColIdx(ie, {1, 2}, v, true);
+    bool allValid = s.m.ncol() > 2;
+    int ic[2] = {1, 2};
+    for (int a = 0; a < 2; a++) for (int b = 0; b < 2; b++) { if (allValid) s.m.setc(ic[a], ie[b], v[b * 2 + a]); else s.m.adopt(ic[a], ie[b]); }  // partly invalid list: order of refusal not documented
+  });
+  add("setValuesByColIdx({0},{1},wrong size)", "setValuesByColIdx", false, [](Step& s) { s.db->setValuesByColIdx({0}, {1}, {1., 2., 3.}, false); });
+
+  // ---- setItem
+  add("setItem(name of col 1,vals)", "setItem", false, [](Step& s) {
+    if (s.m.ncol() < 2 || s.m.nech < 1) { s.disabled = true; return; }
+    VectorDouble v = seqTab(s.m.nech, 240.);
+    int r = s.db->setItem(nameAt(s.m, 1), v, false);
+    for (int e = 0; e < s.m.nech; e++) s.m.setc(1, e, v[e]);
+    if (r != 0) s.bad = "setItem returned " + std::to_string(r) + " for a valid request";
+  });
+  add("setItem(name of col 1,vals,useSel)", "setItem[useSel]", false, [nsel](Step& s) {
+    if (s.m.ncol() < 2 || s.m.nech < 1 || !s.m.boolSel() || nsel(s.m) < 1) { s.disabled = true; return; }
+    VectorDouble v = seqTab(nsel(s.m), 250.);  // the size the call itself requires: one value per active sample
+    int r = s.db->setItem(nameAt(s.m, 1), v, true);
+    int k = 0;
+    for (int e = 0; e < s.m.nech; e++) if (s.m.active(e)) s.m.setc(1, e, v[k++]);
+    if (r != 0) s.bad = "setItem returned " + std::to_string(r) + " for a valid request";
+  });
+  add("setItem({0,last},{name2,name0},vals)", "setItem", false, [](Step& s) {
+    if (s.m.ncol() < 3 || s.m.nech < 1) { s.disabled = true; return; }
+    VectorInt rows = {0, s.m.nech - 1};
+    VectorVectorDouble v = {{260., 261.}, {262., 263.}};
+    int r = s.db->setItem(rows, VectorString{nameAt(s.m, 2), nameAt(s.m, 0)}, v, false);
+    int ic[2] = {2, 0};
+    for (int a = 0; a < 2; a++) for (int b = 0; b < 2; b++) s.m.setc(ic[a], rows[b], v[a][b]);
+    if (r != 0) s.bad = "setItem returned " + std::to_string(r) + " for a valid request";
+  });
+  add("setItem(Z,vals)", "setItem", false, [](Step& s) {
+    int n = s.m.nrole(L_Z);
+    if (n < 1 || s.m.nech < 1) { s.disabled = true; return; }
+    VectorVectorDouble v;
+    for (int k = 0; k < n; k++) v.push_back(seqTab(s.m.nech, 270. + 10. * k));
+    int r = s.db->setItem(ELoc::Z, v, false);
+    for (int k = 0; k < n; k++) for (int e = 0; e < s.m.nech; e++) s.m.setc(s.m.roleCol(L_Z, k), e, v[k][e]);
+    if (r != 0) s.bad = "setItem returned " + std::to_string(r) + " for a valid request";
+  });
+
+  // ---- adding several columns at once, rank column, selections
+  add("addColumnsByVVD({c1,c2},'v',Z,-1)", "addColumnsByVVD", true, [fixNech](Step& s) {
+    int n = s.m.nech > 0 ? s.m.nech : 2;
+    VectorVectorDouble t = {seqTab(n, 300.), seqTab(n, 310.)};
+    s.db->addColumnsByVVD(t, "v", ELoc::Z, -1);
+    fixNech(s.m, n);
+    s.m.addCols(2, 0., L_Z, -1);
+    for (int k = 0; k < 2; k++) for (int e = 0; e < n; e++) s.m.cols[s.m.ncol() - 2 + k].v[e] = t[k][e];
+  });
+  add("addColumns(tab 2*nech,'a',Z,0,nvar=2)", "addColumns", true, [fixNech](Step& s) {
+    int n = s.m.nech > 0 ? s.m.nech : 2;
+    VectorDouble t = seqTab(2 * n, 320.);
+    int r = s.db->addColumns(t, "a", ELoc::Z, 0, false, 0., 2);
+    fixNech(s.m, n);
+    int e0 = s.m.addCols(2, 0., L_Z, 0);
+    for (int k = 0; k < 2; k++) for (int e = 0; e < n; e++) s.m.cols[s.m.ncol() - 2 + k].v[e] = t[k * n + e];
+    if (r != e0) s.bad = "returned UID " + std::to_string(r) + ", expected " + std::to_string(e0);
+  });
+  add("generateRank('rank')", "generateRank", true, [](Step& s) {
+    if (s.m.nech < 1) { s.disabled = true; return; }
+    s.db->generateRank("rank");
+    s.m.addCols(1, 0., L_UNK, 0);
+    for (int e = 0; e < s.m.nech; e++) s.m.cols.back().v[e] = e + 1.;
+  });
+  add("addSelectionByRanks({0},'selr')", "addSelectionByRanks", true, [](Step& s) {
+    if (s.m.nech < 1) { s.disabled = true; return; }
+    s.db->addSelectionByRanks({0}, "selr");
+    s.m.addCols(1, 0., L_SEL, 0);
+    s.m.cols.back().v[0] = 1.;
+  });
+  add("addSelection({0,1,1,..},'sel2','and')", "addSelection[and]", true, [](Step& s) {
+    int n = s.m.nech;
+    if (n < 1 || !s.m.boolSel()) { s.disabled = true; return; }
+    VectorDouble t(n, 1.); t[0] = 0.;
+    int is = s.m.selIdx();
+    bool undef = false;
+    if (is >= 0) for (double x : s.m.cols[is].v) if (FFFF(x)) undef = true;
+    if (undef) { s.disabled = true; return; }  // combining with an undefined flag is not defined
+    std::vector<double> old = is >= 0 ? s.m.cols[is].v : std::vector<double>();
+    s.db->addSelection(t, "sel2", "and");
+    s.m.addCols(1, 0., L_SEL, 0);
+    for (int e = 0; e < n; e++) s.m.cols.back().v[e] = (t[e] != 0. && (old.empty() || old[e] != 0.)) ? 1. : 0.;
+  });
+
+  // ---- several names / several columns at once
+  add("setName({name0,name2},'m')", "setName[list]", false, [](Step& s) {
+    VectorString l; for (int i : {0, 2}) if (i < s.m.ncol()) l.push_back(nameAt(s.m, i));
+    s.db->setName(l, "m");
+  });
+  add("deleteColumns({name0,name2})", "deleteColumns", true, [](Step& s) {
+    if (s.m.ncol() < 3) { s.disabled = true; return; }  // a list with an unknown name: nothing / part of it deleted is not documented
+    s.db->deleteColumns({nameAt(s.m, 0), nameAt(s.m, 2)});
+    int u0 = s.m.uidOfIdx(0), u2 = s.m.uidOfIdx(2);
+    s.m.delUid(u0); s.m.delUid(u2);
+  });
+  add("deleteColumnsByUID({1,3})", "deleteColumnsByUID", true, [](Step& s) { s.db->deleteColumnsByUID({1, 3}); s.m.delUid(1); s.m.delUid(3); });
+  add("deleteColumnsByUIDRange(1,2)", "deleteColumnsByUIDRange", true, [](Step& s) { s.db->deleteColumnsByUIDRange(1, 2); s.m.delUid(2); s.m.delUid(1); });
+}
+
 // ------------------------------------------------------------------------------------------------------------
 // start states
 static Db* make_start(int which, RefTable& m)
@@ -553,6 +805,217 @@ static std::string judge(const Db* db, RefTable& m, std::string& why, bool deep)
   return "";
 }
 
+
+// ------------------------------------------------------------------------------------------------------------
+// read accessors: every way of reading the same data must agree with the model (evaluated once per distinct state,
+// after judge() has established that the model equals the implementation cell by cell)
+static bool eqv(const VectorDouble& a, const std::vector<double>& b)
+{
+  if (a.size() != b.size()) return false;
+  for (size_t i = 0; i < b.size(); i++) if (!same(a[i], b[i])) return false;
+  return true;
+}
+#define ACC_FAIL(cls, msg) { std::ostringstream o_; o_ << msg; why = o_.str(); return cls; }
+// clauses hit by a known defect are recorded without stopping the evaluation of the remaining clauses
+static std::vector<std::pair<std::string, std::string>> g_soft;
+#define ACC_SOFT(cls, msg) { std::ostringstream o_; o_ << msg; bool dup_ = false; for (auto& x_ : g_soft) if (x_.first == cls) dup_ = true; if (!dup_) g_soft.push_back({cls, o_.str()}); }
+static std::string judge_accessors(const Db* db, RefTable& m, std::string& why)
+{
+  int ncol = m.ncol(), nech = m.nech;
+  std::vector<int> live = m.liveUids();
+  auto col = [&](int i) -> const std::vector<double>& { return m.cols[i].v; };
+  auto cat = [&](const std::vector<int>& idx) { std::vector<double> r; for (int i : idx) r.insert(r.end(), col(i).begin(), col(i).end()); return r; };
+  VectorString allNames; for (auto& c : m.cols) allNames.push_back(c.name);
+
+  // ---- one sample across the columns (by increasing UID) / some samples of one column
+  for (int e = 0; e < nech; e++)
+  {
+    std::vector<double> got; db->getArrayBySample(got, e);
+    std::vector<double> ref; for (int u : live) ref.push_back(col(m.idxOfUid(u))[e]);
+    if (got.size() != ref.size()) ACC_FAIL("accessor-getArrayBySample", "getArrayBySample(" << e << ") returns " << got.size() << " values for " << ref.size() << " columns");
+    for (size_t k = 0; k < ref.size(); k++) if (!same(got[k], ref[k])) ACC_FAIL("accessor-getArrayBySample", "getArrayBySample(" << e << ")[" << k << "]=" << fmt(got[k]) << " but the cell of UID " << live[k] << " is " << fmt(ref[k]));
+  }
+  if (nech > 0)
+    for (int u : live)
+    {
+      VectorInt ie = {nech - 1, 0};
+      VectorDouble v(2, -7.);
+      db->getArrayVec(ie, u, v);
+      int i = m.idxOfUid(u);
+      if (!same(v[0], col(i)[nech - 1]) || !same(v[1], col(i)[0])) ACC_FAIL("accessor-getArrayVec", "getArrayVec({last,0}, uid " << u << ") = " << vstr(v) << " cells are " << fmt(col(i)[nech - 1]) << "," << fmt(col(i)[0]));
+      if (!eqv(db->getArrayByUID(u, false), col(i))) ACC_FAIL("accessor-getArrayByUID", "getArrayByUID(" << u << ") differs from column " << i);
+    }
+  // ---- columns and sets of columns
+  for (int i = 0; i < ncol; i++)
+    if (!eqv(db->getColumnByColIdx(i, false, false), col(i))) ACC_FAIL("accessor-getColumnByColIdx", "getColumnByColIdx(" << i << ") differs from the cells");
+  if (ncol > 0)
+  {
+    std::vector<int> all; for (int i = 0; i < ncol; i++) all.push_back(i);
+    std::vector<int> byuid; for (int u : live) byuid.push_back(m.idxOfUid(u));
+    std::vector<int> rev = {ncol - 1, 0};
+    if (!eqv(db->getColumnsByColIdx({ncol - 1, 0}, false, false), cat(rev))) ACC_FAIL("accessor-getColumnsByColIdx", "getColumnsByColIdx({last,0}) differs from the two columns");
+    if (!eqv(db->getColumnsByColIdxInterval(0, ncol, false, false), cat(all))) ACC_FAIL("accessor-getColumnsByColIdxInterval", "getColumnsByColIdxInterval(0,ncol) differs from the table");
+    if (!eqv(db->getColumnsByUID({m.cols[ncol - 1].uid, m.cols[0].uid}, false, false), cat(rev))) ACC_FAIL("accessor-getColumnsByUID", "getColumnsByUID({uid of last, uid of first}) differs from the two columns");
+    if (!eqv(db->getAllColumns(false, false), cat(byuid))) ACC_FAIL("accessor-getAllColumns", "getAllColumns() differs from the columns taken by increasing UID");
+    if ((int)live.size() == m.nuid && !eqv(db->getColumnsByUIDInterval(0, m.nuid, false, false), cat(byuid))) ACC_FAIL("accessor-getColumnsByUIDInterval", "getColumnsByUIDInterval(0,nuid) differs from the table");
+    VectorString two;
+    two.push_back(m.cols[ncol - 1].name);
+    if (ncol > 1) two.push_back(m.cols[0].name);
+    if (ncol == 1) rev.pop_back();
+    if (!eqv(db->getColumns(two, false, false), cat(rev))) ACC_FAIL("accessor-getColumns", "getColumns({last name, first name}) differs from the two columns");
+    VectorVectorDouble vvd = db->getColumnsAsVVD(two, false, false);
+    if (vvd.size() != rev.size()) ACC_FAIL("accessor-getColumnsAsVVD", "getColumnsAsVVD returns " << vvd.size() << " columns for " << rev.size() << " names");
+    for (size_t k = 0; k < rev.size(); k++) if (!eqv(vvd[k], col(rev[k]))) ACC_FAIL("accessor-getColumnsAsVVD", "getColumnsAsVVD[" << k << "] differs from column " << rev[k]);
+    if (nech > 0)
+    {
+      MatrixRectangular mat = db->getColumnsAsMatrix(two, false, false);
+      if (mat.getNRows() != nech || mat.getNCols() != (int)rev.size()) ACC_FAIL("accessor-getColumnsAsMatrix", "getColumnsAsMatrix is " << mat.getNRows() << "x" << mat.getNCols());
+      for (size_t k = 0; k < rev.size(); k++) for (int e = 0; e < nech; e++) if (!same(mat.getValue(e, (int)k), col(rev[k])[e])) ACC_FAIL("accessor-getColumnsAsMatrix", "getColumnsAsMatrix(" << e << "," << k << ") differs from the cell");
+      VectorInt ie = {nech - 1, 0};
+      VectorInt ic = {ncol - 1, 0};
+      for (int bs = 0; bs < 2; bs++)
+      {
+        std::vector<double> ref;
+        if (bs) { for (int e : ie) for (int i : ic) ref.push_back(col(i)[e]); } else { for (int i : ic) for (int e : ie) ref.push_back(col(i)[e]); }
+        if (!eqv(db->getValuesByColIdx(ie, ic, bs), ref)) ACC_FAIL("accessor-getValuesByColIdx", "getValuesByColIdx({last,0},{last,0},bySample=" << bs << ") differs from the cells");
+        if (ncol > 1 && !eqv(db->getValuesByNames(ie, {m.cols[ncol - 1].name, m.cols[0].name}, bs), ref)) ACC_FAIL("accessor-getValuesByNames", "getValuesByNames({last,0},{last name,first name},bySample=" << bs << ") differs from the cells");
+      }
+      // getItem
+      VectorVectorDouble it = db->getItem(m.cols[0].name, false);
+      if (it.size() != 1 || !eqv(it[0], col(0))) ACC_FAIL("accessor-getItem", "getItem(first name) differs from column 0");
+      it = db->getItem(ie, two, false);
+      if (it.size() != rev.size()) ACC_FAIL("accessor-getItem", "getItem(rows,names) returns " << it.size() << " columns");
+      for (size_t k = 0; k < rev.size(); k++) if (it[k].size() != 2 || !same(it[k][0], col(rev[k])[nech - 1]) || !same(it[k][1], col(rev[k])[0])) ACC_FAIL("accessor-getItem", "getItem({last,0},names)[" << k << "] differs from the cells of column " << rev[k]);
+    }
+  }
+  // ---- by role
+  for (int T : {L_X, L_Z, L_F, L_SEL})
+  {
+    int n = m.nrole(T);
+    std::vector<int> idx; for (int k = 0; k < n; k++) idx.push_back(m.roleCol(T, k));
+    if (db->getLocNumber(eloc(T)) != n || db->getFromLocatorNumber(eloc(T)) != n || db->hasLocVariable(eloc(T)) != (n > 0) || db->hasLocator(eloc(T)) != (n > 0))
+      ACC_FAIL("accessor-role-count", "getLocNumber/getFromLocatorNumber/hasLocVariable/hasLocator(" << lname(T) << ") disagree with " << n << " columns holding the role");
+    if (T == L_Z && db->getZNumber() != n) ACC_FAIL("accessor-role-count", "getZNumber()=" << db->getZNumber() << " model " << n);
+    VectorString nm = db->getNamesByLocator(eloc(T)), inm = db->getItemNames(eloc(T));
+    VectorInt uu = db->getUIDsByLocator(eloc(T)), cc = db->getColIdxsByLocator(eloc(T));
+    if ((int)nm.size() != n || (int)uu.size() != n || (int)cc.size() != n || (int)inm.size() != n) ACC_FAIL("accessor-role-lists", "getNamesByLocator/getUIDsByLocator/getColIdxsByLocator(" << lname(T) << ") sizes " << nm.size() << "/" << uu.size() << "/" << cc.size() << " for " << n << " columns");
+    for (int k = 0; k < n; k++)
+    {
+      if (nm[k] != m.cols[idx[k]].name || inm[k] != nm[k] || uu[k] != m.cols[idx[k]].uid || cc[k] != idx[k]) ACC_FAIL("accessor-role-lists", "rank " << k + 1 << " of role " << lname(T) << ": name/uid/index lists disagree with column " << idx[k]);
+      if (!eqv(db->getColumnByLocator(eloc(T), k, false, false), col(idx[k]))) ACC_FAIL("accessor-getColumnByLocator", "getColumnByLocator(" << lname(T) << "," << k << ") differs from column " << idx[k]);
+      if (!db->hasLocatorDefined(m.cols[idx[k]].name, eloc(T), k)) ACC_FAIL("accessor-hasLocatorDefined", "hasLocatorDefined('" << m.cols[idx[k]].name << "'," << lname(T) << "," << k << ") is false");
+    }
+    if (n > 0 && !eqv(db->getColumnsByLocator(eloc(T), false, false), cat(idx))) ACC_FAIL("accessor-getColumnsByLocator", "getColumnsByLocator(" << lname(T) << ") differs from the columns holding the role");
+    if (n > 0 && nech > 0)
+    {
+      VectorVectorDouble it = db->getItem(eloc(T), false);
+      if ((int)it.size() != n) ACC_FAIL("accessor-getItem", "getItem(" << lname(T) << ") returns " << it.size() << " columns for " << n);
+      for (int k = 0; k < n; k++) if (!eqv(it[k], col(idx[k]))) ACC_FAIL("accessor-getItem", "getItem(" << lname(T) << ")[" << k << "] differs from column " << idx[k]);
+    }
+    for (int e = 0; e < nech; e++)
+    {
+      std::vector<double> ref; for (int i : idx) ref.push_back(col(i)[e]);
+      if (n > 0 && !eqv(db->getLocVariables(eloc(T), e), ref)) ACC_FAIL("accessor-getLocVariables", "getLocVariables(" << lname(T) << "," << e << ") differs from the cells");
+      if (n > 0 && !eqv(db->getSampleLocators(eloc(T), e), ref)) ACC_FAIL("accessor-getSampleLocators", "getSampleLocators(" << lname(T) << "," << e << ") differs from the cells");
+      for (int k = 0; k < n; k++)
+      {
+        if (!same(db->getLocVariable(eloc(T), e, k), ref[k])) ACC_FAIL("accessor-getLocVariable", "getLocVariable(" << lname(T) << "," << e << "," << k << ") differs from the cell");
+        if (T == L_Z && !same(db->getZVariable(e, k), ref[k])) ACC_FAIL("accessor-getZVariable", "getZVariable(" << e << "," << k << ") differs from the cell");
+      }
+    }
+  }
+  // ---- coordinates of a point Db = the columns holding the X roles
+  if (!m.grid)
+  {
+    int nd = m.nrole(L_X);
+    if (db->getNDim() != nd) ACC_FAIL("accessor-getNDim", "getNDim()=" << db->getNDim() << " but " << nd << " columns hold an X role");
+    for (int d = 0; d < nd; d++)
+    {
+      int i = m.roleCol(L_X, d);
+      if (!eqv(db->getCoordinates(d, false), col(i))) ACC_FAIL("accessor-getCoordinates", "getCoordinates(" << d << ") differs from column " << i);
+      for (int e = 0; e < nech; e++) if (!same(db->getCoordinate(e, d), col(i)[e])) ACC_FAIL("accessor-getCoordinate", "getCoordinate(" << e << "," << d << ") differs from the cell");
+    }
+    for (int e = 0; e < nech; e++)
+    {
+      std::vector<double> ref; for (int d = 0; d < nd; d++) ref.push_back(col(m.roleCol(L_X, d))[e]);
+      if (!eqv(db->getSampleCoordinates(e), ref)) ACC_FAIL("accessor-getSampleCoordinates", "getSampleCoordinates(" << e << ") differs from the cells");
+    }
+    VectorVectorDouble ac = db->getAllCoordinates(false);
+    if ((int)ac.size() != nd) ACC_FAIL("accessor-getAllCoordinates", "getAllCoordinates() has " << ac.size() << " dimensions");
+    for (int d = 0; d < nd; d++) if (!eqv(ac[d], col(m.roleCol(L_X, d)))) ACC_FAIL("accessor-getAllCoordinates", "getAllCoordinates()[" << d << "] differs from the column");
+  }
+  // ---- lists of names / UIDs / indices
+  if (ncol > 0)
+  {
+    VectorInt ic = {ncol - 1, 0}, iu = {m.cols[ncol - 1].uid, m.cols[0].uid};
+    VectorString nn = {m.cols[ncol - 1].name, m.cols[0].name};
+    VectorString a = db->getNamesByColIdx(ic), b = db->getNamesByUID(iu);
+    if (a.size() != 2 || b.size() != 2 || a[0] != nn[0] || a[1] != nn[1] || b[0] != nn[0] || b[1] != nn[1]) ACC_FAIL("accessor-name-lists", "getNamesByColIdx/getNamesByUID({last,first}) disagree with the names");
+    VectorInt u1 = db->getUIDsByColIdx(ic), c1 = db->getColIdxsByUID(iu);
+    if (u1.size() != 2 || u1[0] != iu[0] || u1[1] != iu[1] || c1.size() != 2 || c1[0] != ic[0] || c1[1] != ic[1]) ACC_FAIL("accessor-uid-lists", "getUIDsByColIdx/getColIdxsByUID({last,first}) disagree");
+    if (ncol > 1)
+    {
+      VectorInt u2 = db->getUIDs(nn), c2 = db->getColIdxs(nn);
+      if (u2.size() != 2 || u2[0] != iu[0] || u2[1] != iu[1] || c2.size() != 2 || c2[0] != ic[0] || c2[1] != ic[1]) ACC_FAIL("accessor-uid-lists", "getUIDs/getColIdxs({last name,first name}) = " << vstr(u2) << "/" << vstr(c2) << " expected " << vstr(iu) << "/" << vstr(ic));
+      VectorString g = db->getNames(nn);
+      if (g.size() != 2 || g[0] != nn[0] || g[1] != nn[1]) ACC_FAIL("accessor-name-lists", "getNames({last name,first name}) does not return the two names");
+    }
+    VectorString g1 = db->getName(nn[0]);
+    VectorInt c3 = db->getColIdxs(nn[0]);
+    if (g1.size() != 1 || g1[0] != nn[0] || c3.size() != 1 || c3[0] != ncol - 1) ACC_FAIL("accessor-name-lists", "getName/getColIdxs('" << nn[0] << "') do not designate the last column only");
+    if (db->getLastUID(0) != live.back()) ACC_FAIL("accessor-getLastUID", "getLastUID()=" << db->getLastUID(0) << " but the largest live UID is " << live.back());
+    if (db->getLastName(0) != m.cols[m.idxOfUid(live.back())].name) ACC_FAIL("accessor-getLastUID", "getLastName() is not the name of the largest live UID");
+    if (live.size() > 1 && db->getLastUID(1) != live[live.size() - 2]) ACC_FAIL("accessor-getLastUID", "getLastUID(1)=" << db->getLastUID(1) << " expected " << live[live.size() - 2]);
+  }
+  {
+    VectorInt au = db->getAllUIDs();
+    if (au.size() != live.size()) ACC_FAIL("accessor-getAllUIDs", "getAllUIDs() has " << au.size() << " entries for " << live.size() << " columns");
+    for (size_t k = 0; k < live.size(); k++) if (au[k] != live[k]) ACC_FAIL("accessor-getAllUIDs", "getAllUIDs()[" << k << "]=" << au[k] << " expected " << live[k]);
+    for (int u = 0; u < m.nuid; u++)
+      if (db->isUIDDefined(u) != (m.idxOfUid(u) >= 0)) ACC_SOFT("accessor-isUIDDefined", "isUIDDefined(" << u << ")=" << db->isUIDDefined(u) << " but UID " << u << (m.idxOfUid(u) >= 0 ? " designates column " + std::to_string(m.idxOfUid(u)) : std::string(" was deleted")) << " ; UID->column table = " << vstr(db->_uidcol));
+  }
+  // ---- selection
+  {
+    VectorDouble sels = db->getSelections();
+    int is = m.selIdx();
+    if (is < 0 ? !sels.empty() : !eqv(sels, col(is))) ACC_FAIL("accessor-getSelections", "getSelections() differs from the column holding the SEL role");
+    VectorBool act = db->getActiveArray();
+    if ((int)act.size() != nech) ACC_FAIL("accessor-getActiveArray", "getActiveArray() has " << act.size() << " entries");
+    int rel = 0;
+    for (int e = 0; e < nech; e++)
+    {
+      bool a = m.active(e);
+      if ((bool)act[e] != a || (db->getSelection(e) != 0) != a) ACC_FAIL("accessor-getActiveArray", "sample " << e << ": getActiveArray/getSelection disagree with the selection cell " << (is >= 0 ? fmt(col(is)[e]) : std::string("(none)")));
+      if (db->getRankAbsoluteToRelative(e) != (a ? rel : (is < 0 ? e : -1))) ACC_FAIL("accessor-sample-ranks", "getRankAbsoluteToRelative(" << e << ")=" << db->getRankAbsoluteToRelative(e) << " expected " << (a ? rel : -1));
+      if (a) { if (db->getRankRelativeToAbsolute(rel) != e) ACC_FAIL("accessor-sample-ranks", "getRankRelativeToAbsolute(" << rel << ")=" << db->getRankRelativeToAbsolute(rel) << " expected " << e); rel++; }
+    }
+    // readers honouring the selection; judged only when every definition of "active" coincides (cells 0, 1 or undefined)
+    if (is >= 0 && m.boolSel())
+    {
+      for (int i = 0; i < ncol; i++)
+      {
+        std::vector<double> comp, mask;
+        for (int e = 0; e < nech; e++) { if (m.active(e)) comp.push_back(col(i)[e]); mask.push_back(m.active(e) ? col(i)[e] : TEST); }
+        if (!eqv(db->getColumnByColIdx(i, true, true), comp)) ACC_FAIL("accessor-useSel:getColumnByColIdx", "getColumnByColIdx(" << i << ",useSel,compress) is not the cells of the active samples; selection=" << vstr(col(is)));
+        if (!eqv(db->getColumnByColIdx(i, true, false), mask)) ACC_FAIL("accessor-useSel:getColumnByColIdx", "getColumnByColIdx(" << i << ",useSel,no compress) is not the cells with TEST at masked samples");
+        if (!eqv(db->getColumn(m.cols[i].name, true, true), comp) || !eqv(db->getColumnByUID(m.cols[i].uid, true, true), comp)) ACC_FAIL("accessor-useSel:getColumn", "getColumn/getColumnByUID(useSel) of column " << i << " disagree with getColumnByColIdx");
+        if (!eqv(db->getArrayByUID(m.cols[i].uid, true), comp)) ACC_SOFT("accessor-useSel:getArrayByUID", "getArrayByUID(" << m.cols[i].uid << ",useSel) is not the cells of the active samples");
+        if (!comp.empty())
+        {
+          VectorVectorDouble it = db->getItem(m.cols[i].name, true);
+          if (it.size() != 1 || !eqv(it[0], comp)) ACC_FAIL("accessor-useSel:getItem", "getItem('" << m.cols[i].name << "',useSel) is not the cells of the active samples");
+        }
+      }
+      if (!m.grid) for (int d = 0; d < m.nrole(L_X); d++)
+      {
+        std::vector<double> comp; for (int e = 0; e < nech; e++) if (m.active(e)) comp.push_back(col(m.roleCol(L_X, d))[e]);
+        if (!eqv(db->getCoordinates(d, true), comp)) ACC_FAIL("accessor-useSel:getCoordinates", "getCoordinates(" << d << ",useSel) is not the coordinates of the active samples");
+      }
+    }
+  }
+  return "";
+}
+
 static std::string describe(const History& h)
 {
   std::string s;
@@ -560,10 +1023,14 @@ static std::string describe(const History& h)
   return s;
 }
 
-static void explore(Ctx& C, int start, int depth)
+static int NCORE = 0;  // ops [0,NCORE) = first half of the alphabet (build_ops), the rest = build_ops2
+// coreprefix > 0: the first 'coreprefix' positions of a history are restricted to the first half of the alphabet
+static void explore(Ctx& C, int start, int depth, int coreprefix = 0)
 {
   const char* startName[] = {"empty Db", "Db 2 samples x (x1,x2,z1)", "Db 2 samples x (rank,x1,x2,z1)", "DbGrid 2x2 (rank,x1,x2,z1)"};
   bfs(C, (int)OPS.size(), depth, [&](const History& h) -> StepResult {
+    for (size_t i = 0; i < h.size() && (int)i < coreprefix; i++)
+      if (h[i] >= NCORE) { StepResult r0; r0.enabled = false; r0.expand = false; return r0; }
     RefTable m;
     Db* db = make_start(start, m);
     bool structural = false;
@@ -571,12 +1038,18 @@ static void explore(Ctx& C, int start, int depth)
     for (size_t i = 0; i < h.size(); i++)
     {
       m.requestedUid = -1;
-      Step s{db, m, "", ""};
+      Step s{db, m, "", false, ""};
       OPS[h[i]].run(s);
+      if (s.disabled) { StepResult r0; r0.enabled = false; r0.expand = false; delete db; return r0; }
       if (OPS[h[i]].structural) structural = true;
       if (i + 1 == h.size()) { bad = s.bad; tag = s.tag; }
-      // adopt names after every step
+      // adopt names after every step, and the cells that the step left unspecified (so that later steps of the
+      // model which READ cells - selections, copies, updates - work on the adopted values)
       if (db->getColumnNumber() == m.ncol()) for (int c = 0; c < m.ncol(); c++) m.cols[c].name = db->_colNames[c];
+      if (db->getColumnNumber() == m.ncol() && db->getSampleNumber(false) == m.nech)
+        for (int c = 0; c < m.ncol(); c++)
+          for (int e = 0; e < m.nech; e++)
+            if (m.cols[c].unspec[e]) { m.cols[c].v[e] = db->getValueByColIdx(e, c); m.cols[c].unspec[e] = 0; }
     }
     StepResult r;
     r.key = state_key(db);
@@ -585,10 +1058,20 @@ static void explore(Ctx& C, int start, int depth)
     bool deep = !apiJudged.count(jk);
     std::string why;
     std::string cls = judge(db, m, why, deep);
+    g_soft.clear();
+    if (cls.empty() && deep && !m.gap) { cls = judge_accessors(db, m, why); if (!cls.empty() && cls.rfind("accessor-", 0) == 0) cls = "!" + cls; }
+    std::vector<std::pair<std::string, std::string>> soft = g_soft;
     if (cls.empty() && deep) apiJudged.insert(jk);
+    if (cls.empty() && deep && m.selIdx() >= 0 && !m.boolSel()) C.outcome("useSel-readers-excluded(selection cells not in {0,1,undefined})");
     C.outcome(deep ? "api-cross-checks-evaluated" : "api-cross-checks-memoized(same hidden state)");
     if (cls.empty() && !bad.empty()) { cls = "return-value"; why = bad; }
     std::string kind = h.empty() ? "start" : OPS[h.back()].kind + tag;
+    for (auto& sv : soft)
+    {
+      // a reader answering wrongly does not corrupt the state: reported, the state is still extended
+      C.violation(sv.first, "start=" + std::string(startName[start]) + " history=[" + describe(h) + "] : " + sv.second, hist_str(h));
+      C.outcome("reader-defect-reported(state still extended)");
+    }
     if (!cls.empty())
     {
       std::string key = kind + ":" + cls;
@@ -613,12 +1096,72 @@ static void explore(Ctx& C, int start, int depth)
   });
 }
 
-VF_PART(db_plain) { explore(C, 1, C.thorough() ? 4 : 3); }
+
+// ------------------------------------------------------------------------------------------------------------
+// out-of-range arguments of the cell mutators / readers: the call must return and leave the table untouched.
+// Each call runs in a forked child (a write outside the table corrupts the heap: detected when the Db is freed).
+VF_PART(outofrange)
+{
+  struct Call { const char* name; std::function<void(Db*)> f; };
+  std::vector<Call> calls = {
+    {"updZVariable(0,item=5,ADD,1)", [](Db* d) { d->updZVariable(0, 5, EOperator::ADD, 1.); }},
+    {"updZVariable(last,item=1,ADD,1)", [](Db* d) { d->updZVariable(d->getSampleNumber() - 1, 1, EOperator::ADD, 1.); }},
+    {"updLocVariable(F,last,0,ADD,1)[no F role]", [](Db* d) { d->updLocVariable(ELoc::F, d->getSampleNumber() - 1, 0, EOperator::ADD, 1.); }},
+    {"updArray(0,uid=99,ADD,1)", [](Db* d) { d->updArray(0, 99, EOperator::ADD, 1.); }},
+    {"updArray(99,uid=1,ADD,1)", [](Db* d) { d->updArray(99, 1, EOperator::ADD, 1.); }},
+    {"setLocVariable(Z,0,item=7,1)", [](Db* d) { d->setLocVariable(ELoc::Z, 0, 7, 1.); }},
+    {"setZVariable(99,0,1)", [](Db* d) { d->setZVariable(99, 0, 1.); }},
+    {"setArrayBySample(99,vec)", [](Db* d) { d->setArrayBySample(99, VectorDouble(d->getColumnNumber(), 1.)); }},
+    {"setArray(0,deleted uid,1)", [](Db* d) { d->setArray(0, 0, 1.); }},
+    {"setCoordinate(99,0,1)", [](Db* d) { d->setCoordinate(99, 0, 1.); }},
+    {"setValueByColIdx(0,99,1)", [](Db* d) { d->setValueByColIdx(0, 99, 1.); }},
+    {"setValuesByColIdx({0},{99},{1})", [](Db* d) { d->setValuesByColIdx({0}, {99}, {1.}); }},
+    {"setItem({99},name,{1})", [](Db* d) { d->setItem(VectorInt{99}, d->getNameByColIdx(0), VectorDouble{1.}); }},
+    {"setColumnByColIdx(tab,99)", [](Db* d) { d->setColumnByColIdx(VectorDouble(d->getSampleNumber(), 1.), 99); }},
+    {"setColumnByUID(tab,deleted uid)", [](Db* d) { d->setColumnByUID(VectorDouble(d->getSampleNumber(), 1.), 0); }},
+    {"copyByCol(0,99)", [](Db* d) { d->copyByCol(0, 99); }},
+    {"copyByUID(deleted uid,2)", [](Db* d) { d->copyByUID(0, 2); }},
+    {"deleteSample(99)", [](Db* d) { d->deleteSample(99); }},
+    {"deleteColumnByColIdx(99)", [](Db* d) { d->deleteColumnByColIdx(99); }},
+    {"setNameByColIdx(99,'q')", [](Db* d) { d->setNameByColIdx(99, "q"); }},
+    {"setLocatorByColIdx(99,Z,0)", [](Db* d) { d->setLocatorByColIdx(99, ELoc::Z, 0); }},
+    {"getColumnByColIdx(99)+getValuesByColIdx({0},{99})+getItem({99},name)", [](Db* d) { (void)d->getColumnByColIdx(99); (void)d->getValuesByColIdx({0}, {99}); (void)d->getItem(VectorInt{99}, d->getNameByColIdx(0)); }},
+  };
+  Space sp;
+  sp.axis("call", (int)calls.size()).axis("start", 2);
+  for_each_case(C, sp, [&](uint64_t id, const std::vector<int>& idx) {
+    const Call& c = calls[idx[0]];
+    ChildResult cr = run_child([&](int wfd) {
+      RefTable m;
+      Db* db = make_start(idx[1] ? 3 : 1, m);
+      db->deleteColumnByUID(0);                      // UID != column index from now on
+      db->addColumnsByConstant(1, 1., "sel", ELoc::SEL);
+      std::string before = db_snapshot(db);
+      c.f(db);
+      std::string after = db_snapshot(db);
+      delete db;                                     // heap check
+      child_write(wfd, before == after ? "SAME\n" : "CHANGED\n");
+      return 0;
+    }, 20., 0);
+    C.eval();
+    C.nontrivial(id);
+    std::string what = std::string("start=") + (idx[1] ? "DbGrid 2x2" : "Db 2x3") + " after deleteColumnByUID(0), addColumnsByConstant(sel,SEL) ; call " + c.name;
+    std::string cname = c.name; cname = cname.substr(0, cname.find('('));
+    if (!cr.clean() || cr.code != 0 || (cr.data != "SAME\n" && cr.data != "CHANGED\n"))
+    { C.violation("outofrange:" + cname + ":unchecked-index", what + " : the process ended with " + cr.describe() + " (write outside the table)", std::to_string(id)); C.outcome("crash"); }
+    else if (cr.data == "CHANGED\n") { C.violation("outofrange:" + cname + ":unchecked-index", what + " : the table changed although the designation is out of range", std::to_string(id)); C.outcome("changed"); }
+    else C.outcome("refused-cleanly");
+  });
+}
+
+VF_PART(db_plain) { explore(C, 1, 3); }
+VF_PART(db_plain_deep) { if (C.thorough()) explore(C, 1, 4, 3); }
 VF_PART(db_rank) { explore(C, 2, C.thorough() ? 3 : 2); }
-VF_PART(db_empty) { explore(C, 0, C.thorough() ? 4 : 3); }
+VF_PART(db_empty) { explore(C, 0, 3); }
+VF_PART(db_empty_deep) { if (C.thorough()) explore(C, 0, 4, 3); }
 VF_PART(grid) { explore(C, 3, C.thorough() ? 3 : 2); }
 
 int main(int argc, char** argv)
 {
-  return run_main(argc, argv, [](Ctx&) { silence(); build_ops(); }, [](Ctx& C) { write_states(C); });
+  return run_main(argc, argv, [](Ctx&) { silence(); build_ops(); NCORE = (int)OPS.size(); build_ops2(); }, [](Ctx& C) { write_states(C); });
 }
